@@ -135,8 +135,10 @@ def parse_kani_output(out):
         cid, st, desc = m.group("id"), m.group("status"), m.group("desc")
         if ".cover." in cid:
             r["covers"].append({"id": cid, "status": st, "desc": desc})
-        elif st not in ("SUCCESS",):
+        elif st == "FAILURE":
             r["failed"].append({"id": cid, "status": st, "desc": desc, "loc": m.group("loc") or ""})
+        elif st not in ("SUCCESS", "UNREACHABLE"):
+            r["errors"] = r.get("errors", 0) + 1
     m = re.search(r"(\d+) variables, (\d+) clauses", out)
     if m:
         r["vars"], r["clauses"] = int(m.group(1)), int(m.group(2))
@@ -148,6 +150,29 @@ def parse_kani_output(out):
         r["verif_time_s"] = float(m.group(1))
     r["stubs"] = re.findall(r"- Stub: ([^\n]+)", out)
     return r
+
+
+def run_group(argv, cwd, env, timeout):
+    """Run argv in its own process group with stdout+stderr to a temp file; on timeout kill the
+    whole group (cargo-kani -> kani-driver -> cbmc).  Returns (output, returncode, timed_out)."""
+    import signal
+    import tempfile
+    with tempfile.TemporaryFile(mode="w+b") as tf:
+        p = subprocess.Popen(argv, cwd=cwd, env=env, stdout=tf, stderr=subprocess.STDOUT, start_new_session=True)
+        timed_out = False
+        try:
+            rc = p.wait(timeout=timeout)
+        except subprocess.TimeoutExpired:
+            timed_out = True
+            try:
+                os.killpg(p.pid, signal.SIGKILL)
+            except ProcessLookupError:
+                pass
+            p.wait()
+            rc = -1
+        tf.seek(0)
+        out = tf.read().decode("utf-8", "replace")
+    return out, rc, timed_out
 
 
 def run_kani(crate_dir, unit, h, log_dir, playback=False):
@@ -176,20 +201,9 @@ def run_kani(crate_dir, unit, h, log_dir, playback=False):
     cmd = f"ulimit -v {KANI_MEM_KB}; exec " + " ".join(args)
     t0 = time.time()
     log_path = os.path.join(log_dir, f"{unit['name']}.{name}{'.playback' if playback else ''}.log")
-    try:
-        p = subprocess.run(["bash", "-c", cmd], cwd=crate_dir, env=env, capture_output=True, text=True,
-                           timeout=timeout, start_new_session=True)
-        out = p.stdout + "\n" + p.stderr
-        rc = p.returncode
-        timed_out = False
-    except subprocess.TimeoutExpired as e:
-        out = (e.stdout.decode() if isinstance(e.stdout, bytes) else (e.stdout or "")) + "\n" + \
-              (e.stderr.decode() if isinstance(e.stderr, bytes) else (e.stderr or ""))
-        rc = -1
-        timed_out = True
-        # kill the whole process group (cbmc children)
-        subprocess.run(["pkill", "-9", "-f", tdir], capture_output=True)
+    out, rc, timed_out = run_group(["bash", "-c", cmd], crate_dir, env, timeout)
     wall = time.time() - t0
+    out = "\n".join(l for l in out.splitlines() if not l.startswith(("Not unwinding", "Unwinding loop", "Unwinding recursion")))
     with open(log_path, "w") as f:
         f.write(out)
     res = parse_kani_output(out)
@@ -207,8 +221,11 @@ def run_kani(crate_dir, unit, h, log_dir, playback=False):
             res["reason"] = "harness has no reachability witness (kani::cover!)"
         else:
             res["status"] = "PASS"
-    elif res["verdict"] == "FAILED":
+    elif res["verdict"] == "FAILED" and res["failed"]:
         res["status"] = "FAIL"
+    elif res["verdict"] == "FAILED":
+        res["status"] = "ERROR"
+        res["reason"] = f"CBMC gave no verdict ({res.get('errors', 0)} checks with status ERROR/UNDETERMINED: solver ran out of memory or failed)"
     else:
         res["status"] = "ERROR"
         tail = out.strip().splitlines()[-15:]
